@@ -178,15 +178,17 @@ func H_C03_core_shares_accepted_by_peer() {
 
 // ---- lemma 2/3: one handler step of node A from an arbitrary state of its tables ----
 
+const vfIDLen = 2 // identities of the handler-step lemmas are 2 bytes
+
 type vfShareRow struct {
-	epochID []byte
+	epochID [vfIDLen]byte
 	keyper  int64
-	share   []byte
+	share   [2]byte
 }
 
 type vfKeyRow struct {
-	epochID []byte
-	key     []byte
+	epochID [vfIDLen]byte
+	key     [2]byte
 }
 
 var vfC03T struct {
@@ -196,40 +198,40 @@ var vfC03T struct {
 	combines int
 }
 
+func vfAnd(a, b bool) bool { return vfIte(a, b, false) } // no short-circuit, no fork
+
 //verif:stub (*github.com/shutter-network/rolling-shutter/rolling-shutter/keyper/database.Queries).ExistsDecryptionKey sql=existsDecryptionKey
 func vfStubExistsKey3(q *database.Queries, ctx context.Context, arg database.ExistsDecryptionKeyParams) (bool, error) {
-	if arg.Eon != vfC03.cfgIndex {
-		return false, nil
-	}
+	found := false
 	for _, r := range vfC03T.keys {
-		if bytes.Equal(r.epochID, arg.EpochID) {
-			return true, nil
-		}
+		found = vfIte(vfAnd(arg.Eon == vfC03.cfgIndex, bytes.Equal(r.epochID[:], arg.EpochID)), true, found)
 	}
-	return false, nil
+	return found, nil
 }
 
 //verif:stub (*github.com/shutter-network/rolling-shutter/rolling-shutter/keyper/database.Queries).GetDecryptionKey sql=getDecryptionKey
 func vfStubGetKey3(q *database.Queries, ctx context.Context, arg database.GetDecryptionKeyParams) (database.DecryptionKey, error) {
-	if arg.Eon == vfC03.cfgIndex {
-		for _, r := range vfC03T.keys {
-			if bytes.Equal(r.epochID, arg.EpochID) {
-				return database.DecryptionKey{Eon: arg.Eon, EpochID: r.epochID, DecryptionKey: r.key}, nil
-			}
-		}
+	found := false
+	var key [2]byte
+	for _, r := range vfC03T.keys {
+		m := vfAnd(arg.Eon == vfC03.cfgIndex, bytes.Equal(r.epochID[:], arg.EpochID))
+		found = vfIte(m, true, found)
+		key = vfIte(m, r.key, key)
 	}
-	return database.DecryptionKey{}, pgx.ErrNoRows
+	if !found {
+		return database.DecryptionKey{}, pgx.ErrNoRows
+	}
+	kk := key
+	return database.DecryptionKey{Eon: arg.Eon, EpochID: arg.EpochID, DecryptionKey: kk[:]}, nil
 }
 
 //verif:stub (*github.com/shutter-network/rolling-shutter/rolling-shutter/keyper/database.Queries).SelectDecryptionKeyShares sql=selectDecryptionKeyShares
 func vfStubSelectShares3(q *database.Queries, ctx context.Context, arg database.SelectDecryptionKeySharesParams) ([]database.DecryptionKeyShare, error) {
 	var out []database.DecryptionKeyShare
-	if arg.Eon != vfC03.cfgIndex {
-		return out, nil
-	}
 	for _, r := range vfC03T.shares {
-		if bytes.Equal(r.epochID, arg.EpochID) {
-			out = append(out, database.DecryptionKeyShare{Eon: arg.Eon, EpochID: r.epochID, KeyperIndex: r.keyper, DecryptionKeyShare: r.share})
+		if vfAnd(arg.Eon == vfC03.cfgIndex, bytes.Equal(r.epochID[:], arg.EpochID)) {
+			row := r
+			out = append(out, database.DecryptionKeyShare{Eon: arg.Eon, EpochID: row.epochID[:], KeyperIndex: row.keyper, DecryptionKeyShare: row.share[:]})
 		}
 	}
 	return out, nil
@@ -242,12 +244,17 @@ func vfInsertShareRow(arg database.InsertDecryptionKeyShareParams) {
 	if arg.Eon != vfC03.cfgIndex {
 		return
 	}
+	conflict := false // ON CONFLICT DO NOTHING
 	for _, r := range vfC03T.shares {
-		if bytes.Equal(r.epochID, arg.EpochID) && r.keyper == arg.KeyperIndex {
-			return // ON CONFLICT DO NOTHING
-		}
+		conflict = vfIte(vfAnd(bytes.Equal(r.epochID[:], arg.EpochID), r.keyper == arg.KeyperIndex), true, conflict)
 	}
-	row := vfShareRow{epochID: arg.EpochID, keyper: arg.KeyperIndex, share: arg.DecryptionKeyShare}
+	if conflict {
+		return
+	}
+	row := vfShareRow{keyper: arg.KeyperIndex}
+	vfAssert(len(arg.EpochID) == vfIDLen && len(arg.DecryptionKeyShare) == 2, "harness-row-sizes")
+	copy(row.epochID[:], arg.EpochID)
+	copy(row.share[:], arg.DecryptionKeyShare)
 	if vfBool("new-row-scanned-first") {
 		vfC03T.shares = append([]vfShareRow{row}, vfC03T.shares...)
 	} else {
@@ -257,14 +264,21 @@ func vfInsertShareRow(arg database.InsertDecryptionKeyShareParams) {
 
 //verif:stub (*github.com/shutter-network/rolling-shutter/rolling-shutter/keyper/database.Queries).InsertDecryptionKey sql=insertDecryptionKey
 func vfStubInsertKey3(q *database.Queries, ctx context.Context, arg database.InsertDecryptionKeyParams) (pgconn.CommandTag, error) {
-	if arg.Eon == vfC03.cfgIndex {
-		for _, r := range vfC03T.keys {
-			if bytes.Equal(r.epochID, arg.EpochID) {
-				return pgconn.CommandTag("INSERT 0 0"), nil
-			}
-		}
-		vfC03T.keys = append(vfC03T.keys, vfKeyRow{epochID: arg.EpochID, key: arg.DecryptionKey})
+	if arg.Eon != vfC03.cfgIndex {
+		return pgconn.CommandTag("INSERT 0 1"), nil
 	}
+	conflict := false
+	for _, r := range vfC03T.keys {
+		conflict = vfIte(bytes.Equal(r.epochID[:], arg.EpochID), true, conflict)
+	}
+	if conflict {
+		return pgconn.CommandTag("INSERT 0 0"), nil
+	}
+	var row vfKeyRow
+	vfAssert(len(arg.EpochID) == vfIDLen && len(arg.DecryptionKey) == 2, "harness-row-sizes")
+	copy(row.epochID[:], arg.EpochID)
+	copy(row.key[:], arg.DecryptionKey)
+	vfC03T.keys = append(vfC03T.keys, row)
 	return pgconn.CommandTag("INSERT 0 1"), nil
 }
 
@@ -280,23 +294,20 @@ func vfStubRowsAffected(t pgconn.CommandTag) int64 {
 func vfStubCombine3(indices []int, shares []*shcrypto.EpochSecretKeyShare, threshold uint64) (*shcrypto.EpochSecretKey, error) {
 	vfC03T.combines++
 	acc := uint64(0)
-	distinct := len(indices) == len(shares) && uint64(len(indices)) == threshold && threshold == vfC03.threshold
-	for i := range indices {
-		for j := 0; j < i; j++ {
-			if indices[i] == indices[j] {
-				distinct = false
-			}
-		}
-		if indices[i] < 0 || indices[i] >= len(vfC03.pkTags) {
-			distinct = false
-		}
-	}
-	if !distinct {
+	shape := vfAnd(len(indices) == len(shares), vfAnd(uint64(len(indices)) == threshold, threshold == vfC03.threshold))
+	if !shape {
 		// outside the Lagrange axiom: arbitrary result
 		if vfBool("combine-fails") {
 			return nil, vfErr("combine")
 		}
 		return vfTagged[shcrypto.EpochSecretKey](vfU64("garbage-key")), nil
+	}
+	distinct := true
+	for i := range indices {
+		for j := 0; j < i; j++ {
+			distinct = vfIte(indices[i] == indices[j], false, distinct)
+		}
+		distinct = vfIte(vfAnd(indices[i] >= 0, indices[i] < len(vfC03.pkTags)), distinct, false)
 	}
 	for i := range indices {
 		acc = vfUFU64("lagrange-step", acc, uint64(indices[i]), vfTagOf(shares[i]))
@@ -304,15 +315,15 @@ func vfStubCombine3(indices []int, shares []*shcrypto.EpochSecretKeyShare, thres
 	// Lagrange axiom: t shares of distinct keypers, all verified for one identity, interpolate to
 	// the key that verifies against the eon public key for that identity.
 	for _, id := range vfC03T.msgIDs {
-		all := true
+		all := distinct
 		for i := range indices {
-			if !vfUFBool("verify-share", vfTagOf(shares[i]), vfC03.pkTags[indices[i]], vfUFU64("epoch-id", id)) {
-				all = false
+			pk := uint64(0)
+			for j, t := range vfC03.pkTags {
+				pk = vfIte(indices[i] == j, t, pk)
 			}
+			all = vfIte(vfUFBool("verify-share", vfTagOf(shares[i]), pk, vfUFU64("epoch-id", id)), all, false)
 		}
-		if all {
-			vfAxiom(vfUFBool("verify-key", acc, vfC03.eonPK, id) && !vfUFBool("verify-key-errors", acc, vfC03.eonPK, id))
-		}
+		vfAxiom(vfIte(all, vfAnd(vfUFBool("verify-key", acc, vfC03.eonPK, id), !vfUFBool("verify-key-errors", acc, vfC03.eonPK, id)), true))
 	}
 	vfAxiom(vfUFBool("key-wellformed", vfUFBytesN("key-bytes", 2, acc)))
 	vfAxiom(vfUFU64("key-of-bytes", vfUFBytesN("key-bytes", 2, acc)) == acc)
@@ -338,15 +349,16 @@ func vfMember(name string) common.Address {
 func vfHasKey(id []byte) bool {
 	known := false
 	for _, kr := range vfC03T.keys {
-		known = vfIte(bytes.Equal(kr.epochID, id), true, known)
+		known = vfIte(bytes.Equal(kr.epochID[:], id), true, known)
 	}
 	return known
 }
 
 func vfKeyRowCorrect(r vfKeyRow) bool {
-	return vfUFBool("key-wellformed", r.key) &&
-		vfUFBool("verify-key", vfUFU64("key-of-bytes", r.key), vfC03.eonPK, r.epochID) &&
-		!vfUFBool("verify-key-errors", vfUFU64("key-of-bytes", r.key), vfC03.eonPK, r.epochID)
+	key, id := r.key[:], r.epochID[:]
+	return vfAnd(vfUFBool("key-wellformed", key),
+		vfAnd(vfUFBool("verify-key", vfUFU64("key-of-bytes", key), vfC03.eonPK, id),
+			!vfUFBool("verify-key-errors", vfUFU64("key-of-bytes", key), vfC03.eonPK, id)))
 }
 
 func vfC03Setup(n int) (instance, maxKeys uint64) {
@@ -378,20 +390,24 @@ func vfC03Tables(n int) {
 	t.shares, t.keys, t.combines = nil, nil, 0
 	m := vfParam("sharerows", 3)
 	for i := 0; i < m; i++ {
-		r := vfShareRow{epochID: vfBytes("row.identity", 2), keyper: vfI64("row.keyper"), share: vfBytesN("row.share", 2)}
-		vfAssume(r.keyper >= 0 && r.keyper < int64(n))
+		r := vfShareRow{epochID: vfAny[[vfIDLen]byte]("row.identity"), keyper: vfI64("row.keyper"), share: vfAny[[2]byte]("row.share")}
+		vfAssume(vfAnd(r.keyper >= 0, r.keyper < int64(n)))
 		for _, o := range t.shares {
-			vfAssume(!(bytes.Equal(o.epochID, r.epochID) && o.keyper == r.keyper))
+			vfAssume(!vfAnd(o.epochID == r.epochID, o.keyper == r.keyper))
 		}
-		vfAssume(vfUFBool("share-wellformed", r.share))
-		vfAssume(vfUFBool("verify-share", vfUFU64("share-of-bytes", r.share), vfC03.pkTags[r.keyper], vfUFU64("epoch-id", r.epochID)))
+		pk := uint64(0)
+		for j, tg := range vfC03.pkTags {
+			pk = vfIte(r.keyper == int64(j), tg, pk)
+		}
+		vfAssume(vfUFBool("share-wellformed", r.share[:]))
+		vfAssume(vfUFBool("verify-share", vfUFU64("share-of-bytes", r.share[:]), pk, vfUFU64("epoch-id", r.epochID[:])))
 		t.shares = append(t.shares, r)
 	}
 	kk := vfParam("keyrows", 2)
 	for i := 0; i < kk; i++ {
-		r := vfKeyRow{epochID: vfBytes("keyrow.identity", 2), key: vfBytesN("keyrow.key", 2)}
+		r := vfKeyRow{epochID: vfAny[[vfIDLen]byte]("keyrow.identity"), key: vfAny[[2]byte]("keyrow.key")}
 		for _, o := range t.keys {
-			vfAssume(!bytes.Equal(o.epochID, r.epochID))
+			vfAssume(o.epochID != r.epochID)
 		}
 		vfAssume(vfKeyRowCorrect(r))
 		t.keys = append(t.keys, r)
@@ -410,7 +426,7 @@ func H_C03_core_share_step_emits_accepted_keys() {
 	msg := &p2pmsg.DecryptionKeyShares{InstanceId: vfU64("msg.instance"), Eon: vfU64("msg.eon"), KeyperIndex: vfU64("msg.keyper")}
 	vfC03T.msgIDs = nil
 	for i := 0; i < k; i++ {
-		id := vfBytes("identity", 2)
+		id := vfBytesN("identity", vfIDLen)
 		msg.Shares = append(msg.Shares, &p2pmsg.KeyShare{IdentityPreimage: id, Share: vfBytesN("share", 2)})
 		vfC03T.msgIDs = append(vfC03T.msgIDs, id)
 	}
@@ -429,7 +445,7 @@ func H_C03_core_share_step_emits_accepted_keys() {
 	for _, id := range vfC03T.msgIDs {
 		cnt := uint64(0)
 		for _, row := range vfC03T.shares {
-			cnt += vfIte(bytes.Equal(row.epochID, id), uint64(1), uint64(0))
+			cnt += vfIte(bytes.Equal(row.epochID[:], id), uint64(1), uint64(0))
 		}
 		enough = vfIte(cnt < c.threshold, false, enough)
 	}
@@ -437,11 +453,11 @@ func H_C03_core_share_step_emits_accepted_keys() {
 	for _, s := range msg.Shares {
 		found := false
 		for _, row := range vfC03T.shares {
-			found = vfIte(bytes.Equal(row.epochID, s.IdentityPreimage), vfIte(row.keyper == int64(msg.KeyperIndex), true, found), found)
+			found = vfIte(vfAnd(bytes.Equal(row.epochID[:], s.IdentityPreimage), row.keyper == int64(msg.KeyperIndex)), true, found)
 		}
 		vfAssert(found, "received-shares-stored")
 	}
-	vfAssert((len(out) == 1) == (enough && !allKnown), "keys-emitted-iff-threshold-reached-for-all-identities-and-some-key-unknown")
+	vfAssert((len(out) == 1) == vfAnd(enough, !allKnown), "keys-emitted-iff-threshold-reached-for-all-identities-and-some-key-unknown")
 	for _, kr := range vfC03T.keys {
 		vfAssert(vfKeyRowCorrect(kr), "stored-keys-correct")
 	}
@@ -457,7 +473,7 @@ func H_C03_core_share_step_emits_accepted_keys() {
 	hk := &DecryptionKeyHandler{config: vfCfg3{addr: addrR, instance: instance, maxKeys: maxKeys}}
 	vfC03T.keys = nil
 	for i := 0; i < vfParam("peerkeyrows", 1); i++ {
-		vfC03T.keys = append(vfC03T.keys, vfKeyRow{epochID: vfBytes("peer.identity", 2), key: vfBytesN("peer.key", 2)})
+		vfC03T.keys = append(vfC03T.keys, vfKeyRow{epochID: vfAny[[vfIDLen]byte]("peer.identity"), key: vfAny[[2]byte]("peer.key")})
 	}
 	kres, kerr := hk.ValidateMessage(context.Background(), out[0])
 	vfAssert(kres == pubsub.ValidationAccept && kerr == nil, "emitted-keys-accepted-by-honest-peer")
@@ -472,7 +488,7 @@ func H_C03_core_keys_step_stores_correct_keys() {
 	k := 1 + vfLen("extra-identities", vfParam("identities", 2)-1)
 	msg := &p2pmsg.DecryptionKeys{InstanceId: vfU64("msg.instance"), Eon: vfU64("msg.eon")}
 	for i := 0; i < k; i++ {
-		msg.Keys = append(msg.Keys, &p2pmsg.Key{IdentityPreimage: vfBytes("identity", 2), Key: vfBytesN("key", 2)})
+		msg.Keys = append(msg.Keys, &p2pmsg.Key{IdentityPreimage: vfBytesN("identity", vfIDLen), Key: vfBytesN("key", 2)})
 	}
 	hk := &DecryptionKeyHandler{config: vfCfg3{addr: addrA, instance: instance, maxKeys: maxKeys}}
 	res, _ := hk.ValidateMessage(context.Background(), msg)
